@@ -1,0 +1,20 @@
+//go:build verif
+// +build verif
+
+package lime
+
+import "github.com/gorilla/websocket"
+
+// NewWebsocketTransportFromConn builds the real WebSocket transport over an
+// already upgraded connection, exactly as DialWebsocket and
+// websocketTransportListener.Accept do (tls tells which encryption the
+// transport reports). It exists only in verification builds: Transport
+// mentions the unexported envelope type, so no other package can supply a
+// transport of its own.
+func NewWebsocketTransportFromConn(conn *websocket.Conn, tls bool) Transport {
+	t := &websocketTransport{conn: conn, c: SessionCompressionNone, e: SessionEncryptionNone}
+	if tls {
+		t.e = SessionEncryptionTLS
+	}
+	return t
+}
